@@ -563,4 +563,128 @@ theorem exportTempos_inv (tk : PartIn → Nat → Int) (parts : List PartIn) :
   have := exportTempos_inv_aux tk [] parts [] ⟨by simp [keysOf], by simp, by simp, by simp⟩
   simpa [exportTempos] using this
 
+-- ------------------------------------------------------------------ which tempo survives on a tick
+
+theorem lookup_dictSet (d : List (κ × β)) (k : κ) (v : β) (t : κ) :
+    lookup t (dictSet d k v) = if k = t then some v else lookup t d := by
+  unfold dictSet
+  by_cases hany : (d.any (fun e => e.1 = k)) = true
+  · rw [if_pos hany]
+    have hk := (any_key_iff d k).mp hany
+    clear hany
+    induction d with
+    | nil => simp [keysOf] at hk
+    | cons e rest ih =>
+      obtain ⟨a, b⟩ := e
+      by_cases hak : a = k
+      · subst hak
+        by_cases hat : a = t
+        · simp [lookup, hat]
+        · simp only [List.map_cons, ↓reduceIte, lookup, hat]
+          by_cases hr : a ∈ keysOf rest
+          · rw [ih hr, if_neg hat]
+          · have : rest.map (fun e => if e.1 = a then (a, v) else e) = rest := by
+              conv_rhs => rw [← List.map_id rest]
+              apply List.map_congr_left
+              intro e he
+              have : e.1 ≠ a := fun h' => hr (h' ▸ List.mem_map.mpr ⟨e, he, rfl⟩)
+              simp [this]
+            rw [this]
+      · have hk2 : k ∈ keysOf rest := by
+          simp only [keysOf, List.map_cons, List.mem_cons] at hk
+          rcases hk with rfl | hk
+          · exact absurd rfl hak
+          · exact hk
+        simp only [List.map_cons, hak, ↓reduceIte, lookup]
+        by_cases hat : a = t
+        · have : k ≠ t := fun h' => hak (hat.trans h'.symm)
+          simp [hat, this]
+        · simp only [hat, ↓reduceIte]
+          exact ih hk2
+  · rw [if_neg hany]
+    have hk : k ∉ keysOf d := fun h' => hany ((any_key_iff d k).mpr h')
+    clear hany
+    induction d with
+    | nil => simp [lookup]
+    | cons e rest ih =>
+      obtain ⟨a, b⟩ := e
+      have hak : a ≠ k := fun h' => hk (by simp [keysOf, h'])
+      have hk2 : k ∉ keysOf rest := fun h' => hk (by
+        simp only [keysOf, List.map_cons, List.mem_cons]
+        exact Or.inr h')
+      simp only [List.cons_append, lookup]
+      by_cases hat : a = t
+      · have : k ≠ t := fun h' => hak (hat.trans h'.symm)
+        simp [hat, this]
+      · simp only [hat, ↓reduceIte]
+        exact ih hk2
+
+/-- the value of the last tempo mark (in reading order: part after part, mark after mark) on tick `t` -/
+def lastMark (marks : List (Int × Nat)) (t : Int) : Option Nat :=
+  ((marks.filter (fun m => m.1 = t)).getLast?).map (·.2)
+
+theorem lastMark_append (marks : List (Int × Nat)) (m : Int × Nat) (t : Int) :
+    lastMark (marks ++ [m]) t = if m.1 = t then some m.2 else lastMark marks t := by
+  unfold lastMark
+  rw [List.filter_append]
+  by_cases h : m.1 = t
+  · simp [h]
+  · simp [h]
+
+/-- all tempo marks of the parts at their written ticks, in reading order -/
+def allMarks (tk : PartIn → Nat → Int) (parts : List PartIn) : List (Int × Nat) :=
+  parts.flatMap fun x => x.tempos.map fun tp => (tk x tp.1, tp.2)
+
+theorem tempos_part_last (tk : PartIn → Nat → Int) (x : PartIn) (marks : List (Nat × Nat)) (seen : List (Int × Nat))
+    (d : List (Int × Nat)) (h : ∀ t v, lastMark seen t = some v → lookup t d = some v) :
+    ∀ t v, lastMark (seen ++ marks.map fun tp => (tk x tp.1, tp.2)) t = some v →
+      lookup t (marks.foldl (fun d tp => dictSet d (tk x tp.1) tp.2) d) = some v := by
+  induction marks generalizing seen d with
+  | nil => simpa using h
+  | cons m ms ih =>
+    simp only [List.map_cons, List.foldl_cons]
+    have := ih (seen ++ [(tk x m.1, m.2)]) (dictSet d (tk x m.1) m.2) (by
+      intro t v hv
+      rw [lastMark_append] at hv
+      rw [lookup_dictSet]
+      by_cases hk : tk x m.1 = t
+      · simpa [hk] using hv
+      · simp only [hk, ↓reduceIte] at hv ⊢
+        exact h t v hv)
+    simpa [List.append_assoc] using this
+
+theorem exportTempos_last_aux (tk : PartIn → Nat → Int) (ps rest : List PartIn) (d : List (Int × Nat))
+    (h : ∀ t v, lastMark (allMarks tk ps) t = some v → lookup t d = some v) :
+    ∀ t v, lastMark (allMarks tk (ps ++ rest)) t = some v →
+      lookup t (rest.foldl (fun d x =>
+        let d' := x.tempos.foldl (fun d tp => dictSet d (tk x tp.1) tp.2) d
+        if d'.isEmpty then [(0, 500000)] else d') d) = some v := by
+  induction rest generalizing ps d with
+  | nil => simpa using h
+  | cons x xs ih =>
+    simp only [List.foldl_cons]
+    have hstep := tempos_part_last tk x x.tempos (allMarks tk ps) d h
+    have hmarks : allMarks tk (ps ++ [x]) = allMarks tk ps ++ x.tempos.map fun tp => (tk x tp.1, tp.2) := by
+      simp [allMarks]
+    have := ih (ps ++ [x])
+      (if (x.tempos.foldl (fun d tp => dictSet d (tk x tp.1) tp.2) d).isEmpty then [(0, 500000)]
+       else x.tempos.foldl (fun d tp => dictSet d (tk x tp.1) tp.2) d) (by
+      intro t v hv
+      rw [hmarks] at hv
+      have hl := hstep t v hv
+      by_cases he : (x.tempos.foldl (fun d tp => dictSet d (tk x tp.1) tp.2) d).isEmpty = true
+      · rw [List.isEmpty_iff.mp he] at hl
+        simp [lookup] at hl
+      · rw [if_neg he]
+        exact hl)
+    simpa [List.append_assoc] using this
+
+/-- when several tempo marks stand on one tick, the `tempos` dict holds the one read last -/
+theorem exportTempos_last (tk : PartIn → Nat → Int) (parts : List PartIn) :
+    ∀ t v, lastMark (allMarks tk parts) t = some v → lookup t (exportTempos tk parts) = some v := by
+  have := exportTempos_last_aux tk [] parts [] (by
+    intro t v hv
+    simp [allMarks, lastMark] at hv)
+  simpa [exportTempos] using this
+
 end C04D
